@@ -738,6 +738,92 @@ def hist_cia(case):
 
 
 # ----------------------------------------------------------------------------------------------
+# directory-change histories: the configured path gains a file between two requests (a private directory per
+# history).  What the path can provide NOW decides a request, not what it held when it was first looked at.
+# ----------------------------------------------------------------------------------------------
+DROP_FORMATS = {'xsec': ['pickle', 'h5', 'exo'], 'ktable': ['kpickle', 'kh5'], 'cia': ['db', 'cia']}
+DROP_OPS = [['get', 'X'], ['get', 'Y'], ['drop', 'Y'], ['interp', 'exp'], ['clear']]
+DROP_NAMES = {'xsec': ('H2O', 'CH4'), 'ktable': ('H2O', 'CH4'), 'cia': ('H2-He', 'H2-H2')}
+
+
+def _drop_write(which, fmt, d, mol, salt):
+    if which == 'cia':
+        rg = fx.rng('c14-drop-cia', salt)
+        tg, wn = [100.0, 300.0, 700.0], [50.0, 150.0, 400.0, 800.0]
+        t = {'wn': wn, 'T': tg, 'x': 10 ** rg.uniform(-0.5, 0.5, size=(3, 4)) * 1e-55}
+        if fmt == 'db':
+            W.write_pickle_cia(os.path.join(d, '%s_2011.db' % mol), t)
+        else:
+            W.write_hitran_cia(os.path.join(d, '%s_2011.cia' % mol), mol,
+                               [{'wn': wn, 'rows': dict((T, t['x'][i]) for i, T in enumerate(tg))}])
+        return t
+    t = logical_table(3, 3, 4, 'generic', ('c14-drop', salt), ng=2 if which == 'ktable' else 0)
+    if fmt == 'pickle':
+        W.write_pickle_xsec(os.path.join(d, '%s.R15000.TauREx.pickle' % mol), t, mol)
+    elif fmt == 'h5':
+        W.write_hdf5_xsec(os.path.join(d, '%s_R1000.h5' % mol), t, mol, unit='Pa')
+    elif fmt == 'exo':
+        W.write_exotransmit(os.path.join(d, 'opac%s.dat' % mol), t)
+    elif fmt == 'kpickle':
+        W.write_pickle_ktable(os.path.join(d, '%s.R100.ktable.TauREx.pickle' % mol), t, mol)
+    else:
+        W.write_hdf5_ktable(os.path.join(d, '%s_R100.h5' % mol), t, unit='Pa', name=mol)
+    return t
+
+
+def drop_fn(case):
+    from taurex.cache import OpacityCache, CIACache
+    from taurex.cache.ktablecache import KTableCache
+    r = core.R(case)
+    fx.reset_caches()
+    which, fx_, fy = case['which'], case['fx'], case['fy']
+    X, Y = DROP_NAMES[which]
+    d = fx.fresh_dir('c14_drop')
+    cache = {'xsec': OpacityCache, 'ktable': KTableCache, 'cia': CIACache}[which]()
+    tabs = {X: _drop_write(which, fx_, d, X, 'X')}
+    {'xsec': getattr(cache, 'set_opacity_path', None), 'ktable': getattr(cache, 'set_ktable_path', None),
+     'cia': getattr(cache, 'set_cia_path', None)}[which](d)
+    mode = 'linear'
+    names = []
+    for op in case['hist']:
+        names.append(op[0] + (op[1] if op[0] in ('get', 'drop') else ''))
+        sig = '%s/%s+%s' % (which, fx_, fy)
+        if op[0] == 'drop':
+            if Y not in tabs:
+                tabs[Y] = _drop_write(which, fy, d, Y, 'Y')
+            continue
+        if op[0] == 'interp':
+            OpacityCache().set_interpolation(op[1])
+            mode = op[1]
+            continue
+        if op[0] == 'clear':
+            if which != 'cia':
+                cache.clear_cache()
+            continue
+        mol = X if op[1] == 'X' else Y
+        try:
+            obj = cache[mol]
+            exc = None
+        except Exception as e:
+            if not _from_taurex(e):
+                raise
+            obj, exc = None, e
+        if mol not in tabs:
+            r.check(exc is not None, 'served-object', 'dirchange/%s/served-although-unavailable' % sig, hist=case['hist'])
+            continue
+        if not r.check(exc is None, 'served-object', 'dirchange/%s/not-found-although-in-path' % sig, exc=repr(exc),
+                       hist=case['hist'], steps='>'.join(names)):
+            break
+        name = obj.pairName if which == 'cia' else obj.moleculeName
+        r.check(name == mol, 'name', 'dirchange/%s/served-name' % sig, got=name, want=mol)
+        got, want = _value_probe(which, obj, tabs[mol], mode)
+        r.eq(got, want, 'served-values', 'dirchange/%s/served-values' % sig, atol=ATOL if which != 'cia' else 1e-80,
+             hist=case['hist'], mode=mode)
+        r.observe(got)
+        r.nontrivial = True
+    return r
+
+
 def explore(ctx):
     thorough = ctx.tier == 'thorough'
     shapes = [(3, 3), (2, 2), (2, 3), (3, 2)] + ([(4, 4), (2, 4), (4, 3)] if thorough else [])
@@ -796,6 +882,19 @@ def explore(ctx):
     t0 = time.time()
     ctx.run_cases('cia_case', ccases, phase='cia')
     ctx.notes.append('cia: %d cases %.1fs' % (len(ccases), time.time() - t0))
+
+    dc = []
+    for which, fmts in DROP_FORMATS.items():
+        for fx_, fy in P(fmts, fmts):
+            for dd in range(1, (5 if thorough else 4) + 1):
+                for h in P(DROP_OPS, repeat=dd):
+                    if which == 'cia' and any(o[0] in ('interp', 'clear') for o in h):
+                        continue
+                    if sum(1 for o in h if o[0] == 'drop') != 1 or h[-1][0] != 'get':
+                        continue
+                    dc.append({'which': which, 'fx': fx_, 'fy': fy, 'hist': [list(o) for o in h]})
+    ctx.bounds.update(directory_change_histories=len(dc), directory_change_depth=5 if thorough else 4)
+    ctx.run_cases('drop_fn', dc, phase='dirchange')
 
     depth = 8 if thorough else 5
     for which, fn in (('xsec', 'hist_xsec'), ('ktable', 'hist_ktable'), ('cia', 'hist_cia')):
